@@ -1,0 +1,48 @@
+//go:build verif
+
+// Contracts for the deductive checker in /verif (govc). Comment-only; ignored without the
+// "verif" build tag.
+//
+// Ghost view of one IAVL tree on disk: tree.cur is the latest saved version, tree.saved[u]
+// whether version u can still be loaded. The Tree interface (github.com/tendermint/iavl
+// behind it) carries ASSUMED contracts: SaveVersion saves version cur+1, DeleteVersion removes
+// exactly the named version; each is one durable write.
+
+package iavl
+
+//@ ghost tree.cur Int
+//@ ghost tree.saved (Array Int Bool)
+
+//@ iface func (t Tree) SaveVersion() (hash []byte, version int64, err error)
+//@   mode heap
+//@   modifies tree.cur, tree.saved
+//@   ensures err == nil ==> version == old(tree.cur) + 1 && tree.cur == version && tree.saved == upd(old(tree.saved), version, true)
+//@   ensures err != nil ==> tree.cur == old(tree.cur) && tree.saved == old(tree.saved)
+//@ iface func (t Tree) DeleteVersion(version int64) (err error)
+//@   mode heap
+//@   modifies tree.saved
+//@   ensures tree.saved == upd(old(tree.saved), version, false)
+
+// C12: Commit advances the version by exactly one and applies the pruning policy exactly:
+// afterwards the loadable versions are the new one plus the old ones, minus (new-1-numRecent)
+// when that is positive and not a multiple of storeEvery. With the retention invariant
+//   saved[u] <==> u >= cur - numRecent || (storeEvery != 0 && u % storeEvery == 0)    (1 <= u <= cur)
+// at entry, it holds again at exit (clause [retention]).
+// C13: between this substore's Commit and the multistore's commit-info flush the previous version
+// is still the one a reopen will ask for, so it must still be loadable (clause [recoverable]).
+//@ func (st *Store) Commit() (id types.CommitID)
+//@   props C12 C13
+//@   requires 0 <= tree.cur && tree.cur < 9223372036854775807 && st.numRecent >= 0 && st.storeEvery >= 0
+//@   requires forall u int :: 1 <= u && u <= tree.cur ==> (tree.saved[u] <==> (u >= tree.cur - st.numRecent || (st.storeEvery != 0 && u % st.storeEvery == 0)))
+//@   modifies tree.cur, tree.saved
+//@   may_panic
+//@   ensures [version] id.Version == old(tree.cur) + 1 && tree.cur == id.Version
+//@   ensures [retention] forall u int :: 1 <= u && u <= tree.cur ==> (tree.saved[u] <==> (u >= tree.cur - st.numRecent || (st.storeEvery != 0 && u % st.storeEvery == 0)))
+//@   ensures [onlyone] forall u int :: u != id.Version && u != id.Version - 1 - st.numRecent ==> tree.saved[u] == old(tree.saved[u])
+//@   ensures [recoverable@C13] old(tree.cur) >= 1 ==> tree.saved[old(tree.cur)]
+
+// C12: the pruning policy a store applies is exactly the one it was given.
+//@ func (st *Store) SetPruning(opt types.PruningOptions)
+//@   props C12
+//@   modifies st.numRecent, st.storeEvery
+//@   ensures st.numRecent == opt.keepRecent && st.storeEvery == opt.keepEvery
